@@ -69,10 +69,16 @@ class SockState(object):
         self.server = None          # ServerProc
         self.closed_by_gc = False
         self.sni = None
+        self.sockopts = []
+        self.rcvlowat = 1
 
     # -- readability as the kernel would report it
     def readable(self):
-        return bool(self.inq) or self.in_eof or self.in_rst or self.dead
+        if self.in_eof or self.in_rst or self.dead:
+            return True
+        if self.rcvlowat > 1 and not self.tls:
+            return sum(len(c) for c in self.inq) >= self.rcvlowat
+        return bool(self.inq)
 
     def enqueue(self, data):
         """A chunk arrives from the peer."""
@@ -117,8 +123,14 @@ class FakeSocket(object):
         state.ref = weakref.ref(self)
 
     # -- set-up calls
-    def setsockopt(self, *a):
-        pass
+    def setsockopt(self, level, opt, value=None, *a):
+        st = self._st
+        st.sockopts.append((level, opt, value))
+        if level == _real_socket.SOL_SOCKET and \
+                opt == _real_socket.SO_RCVLOWAT and isinstance(value, int):
+            # Linux: poll() reports the socket readable only once that many
+            # bytes are queued (or on EOF / error)
+            st.rcvlowat = max(1, value)
 
     def settimeout(self, t):
         self._st.timeout = t
@@ -150,7 +162,8 @@ class FakeSocket(object):
             part = fault.get('partial', 0)
             if part:
                 self._record_out(data[:min(part, len(data))])
-            if kind not in ('timeout', 'exc') or fault.get('fatal'):
+            if kind not in ('timeout', 'exc', 'eintr', 'eagain', 'enobufs') \
+                    or fault.get('fatal'):
                 # EPIPE / ECONNRESET: the connection is gone.  A time-out
                 # (peer not reading) or an arbitrary exception leaves the
                 # read side as it was.
@@ -166,7 +179,13 @@ class FakeSocket(object):
                 raise OSError(errno.ECONNRESET, 'Connection reset by peer')
             if kind == 'timeout':
                 raise _real_socket.timeout('timed out')
-            raise InjectedError('injected failure in sendall')
+            if kind == 'eintr':
+                raise OSError(errno.EINTR, 'Interrupted system call')
+            if kind == 'eagain':
+                raise OSError(errno.EAGAIN, 'Resource temporarily unavailable')
+            if kind == 'enobufs':
+                raise OSError(errno.ENOBUFS, 'No buffer space available')
+            raise InjectedError('injected {failure} in sendall {0} }{')
         if w.sched is not None:
             w.sched.split_write(self, data)
         else:
@@ -214,7 +233,7 @@ class FakeSocket(object):
                 raise OSError(errno.ECONNRESET, 'Connection reset by peer')
             if kind == 'timeout':
                 raise _real_socket.timeout('timed out')
-            raise InjectedError('injected failure in recv')
+            raise InjectedError('injected {failure} in recv {0} {')
         if not (st.tls and st.tls_buf):
             # blocking read (proxy phase, or a spurious wake-up)
             if not st.readable():
@@ -355,7 +374,7 @@ class FakePoll(object):
             w.fired('poll_raises')
             if fault['kind'] == 'oserror':
                 raise OSError(errno.EBADF, 'injected failure in poll')
-            raise InjectedError('injected failure in poll')
+            raise InjectedError('injected {failure} in poll {1}')
         states = [w.by_fd.get(fd) for fd in self._fds]
         states = [s for s in states if s is not None]
 
@@ -662,7 +681,8 @@ class World(object):
         self.n_recv_total = 0
         self.max_recvs = scen.get('max_recvs', 4 * self.max_polls + 20000)
         self.max_time = scen.get('max_time_us', 10 ** 12)
-        self.conn_specs = [ConnSpec(c) for c in scen.get('conns', [{}])]
+        self.conn_specs = [] if scen.get('conns_by_host') is not None else \
+            [ConnSpec(c) for c in scen.get('conns', [{}])]
         self.conn_index = -1
         self.cur_conn = None
         self.urandom_log = []
@@ -678,6 +698,8 @@ class World(object):
         self.fault_marks = []
         self.keys_seen = []
         self.marks = []
+        self.host_specs = {}
+        self.host_count = {}
         self.sel_created = 0
         self.sel_closed = 0
 
@@ -790,6 +812,17 @@ class World(object):
     # -- connect phase
     def getaddrinfo(self, host, port, family=0, type_=0, *a):
         self.conn_index += 1
+        by_host = self.scen.get('conns_by_host')
+        if by_host is not None:
+            # several WebSocket objects share this world: each host has its
+            # own list of connection specs
+            lst = self.host_specs.setdefault(host, [
+                ConnSpec(c) for c in by_host.get(host, [])])
+            k = self.host_count.get(host, 0)
+            self.host_count[host] = k + 1
+            spec = lst[k] if k < len(lst) else ConnSpec({'resolve': 'gaierror'})
+            self.conn_specs.append(spec)
+            self.conn_index = len(self.conn_specs) - 1
         if self.conn_index >= len(self.conn_specs):
             # scenario ran out of connection specs: behave like the last one
             self.conn_specs.append(ConnSpec({'resolve': 'gaierror'}))
@@ -932,6 +965,12 @@ class _SocketNS(object):
     IPPROTO_TCP = _real_socket.IPPROTO_TCP
     TCP_NODELAY = _real_socket.TCP_NODELAY
     SHUT_RDWR = _real_socket.SHUT_RDWR
+    SHUT_WR = _real_socket.SHUT_WR
+    SHUT_RD = _real_socket.SHUT_RD
+    SOL_SOCKET = _real_socket.SOL_SOCKET
+    SO_RCVLOWAT = _real_socket.SO_RCVLOWAT
+    SO_KEEPALIVE = _real_socket.SO_KEEPALIVE
+    SO_LINGER = _real_socket.SO_LINGER
 
     @staticmethod
     def getaddrinfo(*a):
